@@ -1,60 +1,36 @@
 #!/usr/bin/env python3
-"""Self-test of the checker: every case applies one patch to a scratch copy of /repo (outside /repo and
-/verif), runs one property's check against the copy and requires a VIOLATION that names the expected
-rule instance. Reverse-applied `fix` patches re-introduce the genuine defects that were repaired.
-Exit 0 iff every case is detected (and the clean copy stays silent)."""
-import json
-import os
-import shutil
-import subprocess
+"""Regression battery: every case applies one patch to a scratch copy of /repo (outside /repo and /verif), runs one
+property's check against the copy and requires a VIOLATION that names the expected rule instance. Reverse-applied `fix`
+patches re-introduce the genuine defects that were repaired. Exit 0 iff every case is detected.
+usage: run.py [substring of case name ...]"""
 import sys
-import tempfile
-
-HERE = os.path.dirname(os.path.abspath(__file__))
-VERIF = os.path.dirname(HERE)
+import harness
 
 
-def run_case(case, scratch_root):
-    repo = os.path.join(scratch_root, "repo")
-    if os.path.exists(repo):
-        shutil.rmtree(repo)
-    subprocess.check_call(["rsync", "-a", "--exclude", "target", "--exclude", ".git", "/repo/", repo + "/"])
-    patch = os.path.join(HERE, case["patch"])
-    cmd = ["patch", "-p1", "-s", "-d", repo, "-i", patch]
-    if case.get("reverse"):
-        cmd.insert(1, "-R")
-    r = subprocess.run(cmd, stdout=subprocess.PIPE, stderr=subprocess.STDOUT, text=True)
-    if r.returncode != 0:
-        return False, "patch does not apply: " + r.stdout[-300:]
-    env = dict(os.environ, REPO=repo)
-    out = subprocess.run([os.path.join(VERIF, "check"), case["property"], "quick"], cwd=VERIF, env=env, stdout=subprocess.PIPE, stderr=subprocess.STDOUT, text=True)
-    text = out.stdout
-    hit = [l for l in text.splitlines() if l.strip().startswith("violation") and case["expect"] in l]
-    ok = out.returncode == 1 and "VIOLATION property=%s" % case["property"] in text and bool(hit)
-    return ok, (hit[0].strip()[:200] if hit else "exit=%d; %s" % (out.returncode, " | ".join(l.strip()[:120] for l in text.splitlines() if "violation" in l or "INFRA" in l)[:400]))
+def run_cases(bat, cases):
+    failed = []
+    for case in cases:
+        import os
+        repo, err = bat.scratch(os.path.join(harness.HERE, case["patch"]), case.get("reverse", False))
+        if err:
+            print("MISSED   %-44s %s %s" % (case["name"], case["property"], err))
+            failed.append(case["name"])
+            continue
+        code, keys, text = bat.run(repo, case["property"])
+        hit = [k for k in keys if case["expect"] in k]
+        ok = code == 1 and ("VIOLATION property=%s" % case["property"]) in text and bool(hit)
+        print("%s %-44s %s %s" % ("DETECTED" if ok else "MISSED  ", case["name"], case["property"], hit[0][:150] if hit else "exit=%d %s" % (code, "; ".join(keys)[:300])))
+        if not ok:
+            failed.append(case["name"])
+    return failed
 
 
 def main():
-    cases = json.load(open(os.path.join(HERE, "cases.json")))
-    only = sys.argv[1:] 
-    scratch = tempfile.mkdtemp(prefix="verif-selftest-")
-    failed = 0
-    try:
-        for case in cases:
-            if only and not any(o in case["name"] for o in only):
-                continue
-            ok, detail = run_case(case, scratch)
-            print("%s %-44s %s %s" % ("DETECTED" if ok else "MISSED  ", case["name"], case["property"], detail))
-            if not ok:
-                failed += 1
-    finally:
-        shutil.rmtree(scratch, ignore_errors=True)
-        # drop the facts extracted from scratch copies
-        cache = os.path.join(VERIF, ".cache")
-        for d in os.listdir(cache):
-            if d.startswith("facts-") or d.startswith("evidence-"):
-                shutil.rmtree(os.path.join(cache, d), ignore_errors=True)
-    print("%d case(s) missed" % failed)
+    only = sys.argv[1:]
+    cases = [c for c in harness.regression_cases() if not only or any(o in c["name"] for o in only)]
+    with harness.Battery() as bat:
+        failed = run_cases(bat, cases)
+    print("%d case(s) missed" % len(failed))
     return 1 if failed else 0
 
 
